@@ -78,6 +78,9 @@ def gen_program(r, prop):
         c = r.random()
         if tk == "set":
             st = r.choice([["contains", t, some_keys(1, 6, 0.4)], ["containsone", t, enc(r.choice(keys + absent_in[:3]))]])
+            if r.random() < 0.08:
+                v = r.choice(absent_in) if (absent_in and r.random() < 0.7) else r.choice(keys)
+                st = ["containsrep", t, enc(v), r.choice([1000, 100000, 100001, 150000]), some_keys(1, 6, 0.4), r.choice(["head", "tail"])]
         elif tk == "counter" and c < 0.55:
             m = r.random()
             if m < 0.1:
